@@ -734,7 +734,7 @@ variable [Inhabited K] [Inhabited V]
 structure OldOK (o : Ops K) (h : HMap K V) (oa : Array (Chain K V)) : Prop where
   size : oa.size = h.noldbuckets
   bpos : h.sameSizeGrow = false → 1 ≤ h.B
-  nevac : h.nevacuate ≤ oa.size
+  nevac : h.nevacuate < oa.size
   done : ∀ j (hj : j < oa.size), j < h.nevacuate → evacuatedChain oa[j] = true
   chains : ∀ j (hj : j < oa.size),
     (evacuatedChain oa[j] = true → ∀ x ∈ oa[j], x.live = false) ∧
@@ -1313,5 +1313,656 @@ theorem deleteCore_spec {o : Ops K} (ho : HashOK o) {h : HMap K V} (hw : WF o h)
       refine ⟨wf_reseed hw1 hz' rfl rfl rfl rfl rfl rfl, ?_, o1⟩
       rw [← habs1]; rfl
     · exact ⟨hw1, habs1, o1⟩
+
+/-! ## evacuation -/
+
+/-- two headers that differ only in the overflow counter, the random stream and the throw counter -/
+structure Same (h h' : HMap K V) : Prop where
+  buckets : h'.buckets = h.buckets
+  old : h'.old = h.old
+  B : h'.B = h.B
+  ssg : h'.sameSizeGrow = h.sameSizeGrow
+  nev : h'.nevacuate = h.nevacuate
+  hash0 : h'.hash0 = h.hash0
+  count : h'.count = h.count
+  iter : h'.iterFlag = h.iterFlag
+
+omit [Inhabited K] [Inhabited V] in
+theorem Same.refl (h : HMap K V) : Same h h := ⟨rfl, rfl, rfl, rfl, rfl, rfl, rfl, rfl⟩
+
+omit [Inhabited K] [Inhabited V] in
+theorem Same.trans {a b c : HMap K V} (h1 : Same a b) (h2 : Same b c) : Same a c :=
+  ⟨h2.buckets.trans h1.buckets, h2.old.trans h1.old, h2.B.trans h1.B, h2.ssg.trans h1.ssg, h2.nev.trans h1.nev,
+   h2.hash0.trans h1.hash0, h2.count.trans h1.count, h2.iter.trans h1.iter⟩
+
+omit [Inhabited K] [Inhabited V] in
+theorem same_fastrand (h : HMap K V) : Same h h.fastrand.2 := by
+  unfold HMap.fastrand; exact ⟨rfl, rfl, rfl, rfl, rfl, rfl, rfl, rfl⟩
+
+omit [Inhabited K] [Inhabited V] in
+theorem same_incr (h : HMap K V) : Same h h.incrnoverflow := by
+  unfold HMap.incrnoverflow HMap.fastrand
+  split
+  · exact ⟨rfl, rfl, rfl, rfl, rfl, rfl, rfl, rfl⟩
+  · simp only
+    split <;> exact ⟨rfl, rfl, rfl, rfl, rfl, rfl, rfl, rfl⟩
+
+omit [Inhabited K] [Inhabited V] in
+theorem hashKey_ok {o : Ops K} {s : UInt32} {k : K} (h : HMap K V) (hu : o.unhashable k = false) :
+    ∃ hash h1, hashKey o s k h = .ok (hash, h1) ∧ Same h h1 ∧ (o.eq k k = true → hash = o.hash s k ∧ h1 = h) := by
+  unfold hashKey
+  simp only [hu, Bool.false_eq_true, if_false]
+  cases hr : o.eq k k with
+  | true => exact ⟨_, _, rfl, Same.refl h, fun _ => ⟨rfl, rfl⟩⟩
+  | false =>
+    simp only [Bool.false_eq_true, if_false]
+    exact ⟨_, _, rfl, same_fastrand h, fun e => by cases e⟩
+
+
+def freshCell (K V : Type) [Inhabited K] [Inhabited V] : Cell K V := { top := emptyRest, key := default, val := default }
+
+/-- an evacuation destination holds the cells written so far, padded with zeroed cells to whole buckets -/
+def DstOK (d : Dst K V) (ws : List (Cell K V)) : Prop :=
+  d.i ≤ 8 ∧ ws.length = 8 * d.bi + d.i ∧ d.chain = ws ++ List.replicate (8 * (d.bi + 1) - ws.length) (freshCell K V)
+
+theorem set_append_replicate (ws : List (Cell K V)) (n : Nat) (c f : Cell K V) :
+    (ws ++ List.replicate (n + 1) f).set ws.length c = ws ++ c :: List.replicate n f := by
+  rw [List.replicate_succ, set_split]
+
+theorem put_spec {d : Dst K V} {ws : List (Cell K V)} (hd : DstOK d ws) (c : Cell K V) (h : HMap K V) :
+    DstOK (d.put c h).1 (ws ++ [c]) ∧ Same h (d.put c h).2 := by
+  obtain ⟨hi, hlen, hch⟩ := hd
+  unfold Dst.put
+  by_cases h8 : d.i = 8
+  · have hb : (d.i == bucketCnt) = true := by simp [h8, bucketCnt]
+    simp only [hb, if_true]
+    refine ⟨⟨by simp, by simp; omega, ?_⟩, same_incr h⟩
+    have hz : 8 * (d.bi + 1) - ws.length = 0 := by omega
+    rw [hz] at hch
+    simp only [List.replicate_zero, List.append_nil] at hch
+    have htake : List.take ((d.bi + 1) * bucketCnt) d.chain = ws := by
+      rw [hch]; apply List.take_of_length_le; simp [bucketCnt]; omega
+    simp only [htake]
+    have hidx : (d.bi + 1) * bucketCnt + 0 = ws.length := by simp [bucketCnt]; omega
+    rw [hidx]
+    have : freshBucket K V = List.replicate (7 + 1) (freshCell K V) := rfl
+    rw [this, set_append_replicate]
+    have : 8 * (d.bi + 1 + 1) - (ws ++ [c]).length = 7 := by simp; omega
+    rw [this]; simp
+  · have hb : (d.i == bucketCnt) = false := by simp [h8, bucketCnt]
+    simp only [hb, Bool.false_eq_true, if_false]
+    refine ⟨⟨by simp; omega, by simp; omega, ?_⟩, Same.refl h⟩
+    have hidx : d.bi * bucketCnt + d.i = ws.length := by simp [bucketCnt]; omega
+    simp only [hidx]
+    obtain ⟨n, hn⟩ : ∃ n, 8 * (d.bi + 1) - ws.length = n + 1 := ⟨8 * (d.bi + 1) - ws.length - 1, by omega⟩
+    rw [hch, hn, set_append_replicate]
+    have : 8 * (d.bi + 1) - (ws ++ [c]).length = n := by simp; omega
+    rw [this]; simp
+
+
+omit [Inhabited K] [Inhabited V] in
+theorem live_iff {c : Cell K V} : c.live = true ↔ 5 ≤ c.top.toNat := by simp [Cell.live]
+
+omit [Inhabited V] [Inhabited K] in
+theorem evacDecide_spec {o : Ops K} {newbit : Nat} {c : Cell K V} (h : HMap K V)
+    (hl : c.live = true) (hu : o.unhashable c.key = false) :
+    ∃ useY top h1, evacDecide o newbit c h = .ok (useY, top, h1) ∧ Same h h1 ∧ 5 ≤ top.toNat ∧
+      (h.sameSizeGrow = true → useY = false) ∧
+      (o.eq c.key c.key = true → top = c.top ∧
+        (h.sameSizeGrow = false → useY = decide ((o.hash h.hash0 c.key).toNat % (2 * newbit) ≥ newbit))) := by
+  have h5 := live_iff.1 hl
+  unfold evacDecide
+  cases hs : h.sameSizeGrow with
+  | true =>
+    exact ⟨false, c.top, h, by simp [pure, Except.pure], Same.refl h, h5, (fun _ => rfl), fun _ => ⟨rfl, (fun e => by cases e)⟩⟩
+  | false =>
+    obtain ⟨hash, h1, hk, hsame, hrefl⟩ := hashKey_ok (s := h.hash0) h hu
+    simp only [Bool.not_false, if_true, hk, bind, Except.bind]
+    cases hr : o.eq c.key c.key with
+    | true =>
+      obtain ⟨e1, e2⟩ := hrefl hr
+      simp only [Bool.not_true, Bool.and_false, Bool.false_eq_true, if_false]
+      exact ⟨_, _, _, rfl, hsame, h5, (fun e => by cases e), fun _ => ⟨rfl, fun _ => by rw [e1]⟩⟩
+    | false =>
+      split
+      · exact ⟨_, _, _, rfl, hsame, tophash_toNat_ge _, (fun e => by cases e), (fun e => by cases e)⟩
+      · exact ⟨_, _, _, rfl, hsame, h5, (fun e => by cases e), (fun e => by cases e)⟩
+
+
+/-- where a cell written by `evacuate` comes from -/
+def MovedFrom (o : Ops K) (seed : UInt32) (newbit : Nat) (ssg : Bool) (cells : List (Cell K V)) (toY : Bool)
+    (m : Cell K V) : Prop :=
+  5 ≤ m.top.toNat ∧ ∃ c ∈ cells, c.live = true ∧ m.key = c.key ∧ m.val = c.val ∧
+    (o.eq c.key c.key = true → m.top = c.top ∧
+      (ssg = false → decide ((o.hash seed c.key).toNat % (2 * newbit) ≥ newbit) = toY))
+
+omit [Inhabited K] [Inhabited V] in
+theorem MovedFrom.cons {o : Ops K} {seed : UInt32} {newbit : Nat} {ssg : Bool} {cells : List (Cell K V)} {toY : Bool}
+    {m c : Cell K V} (h : MovedFrom o seed newbit ssg cells toY m) : MovedFrom o seed newbit ssg (c :: cells) toY m := by
+  obtain ⟨h5, c', hc', rest⟩ := h
+  exact ⟨h5, c', by simp [hc'], rest⟩
+
+theorem evacCells_spec {o : Ops K} {newbit : Nat} (cells : List (Cell K V)) :
+    ∀ (x y : Dst K V) (h : HMap K V) (wx wy : List (Cell K V)), DstOK x wx →
+    (h.sameSizeGrow = false → DstOK y wy) →
+    (∀ c ∈ cells, isEmptyTop c.top = false → c.live = true ∧ o.unhashable c.key = false) →
+    ∃ marked x' y' h' mx my, evacCells o newbit cells x y h = .ok (marked, x', y', h') ∧ Same h h' ∧
+      marked.length = cells.length ∧ (∀ m ∈ marked, 2 ≤ m.top.toNat ∧ m.top.toNat ≤ 4) ∧
+      DstOK x' (wx ++ mx) ∧ (h.sameSizeGrow = false → DstOK y' (wy ++ my)) ∧
+      (chainAbs mx ++ chainAbs my).Perm (chainAbs cells) ∧
+      (h.sameSizeGrow = true → my = []) ∧
+      (∀ m ∈ mx, MovedFrom o h.hash0 newbit h.sameSizeGrow cells false m) ∧
+      (∀ m ∈ my, MovedFrom o h.hash0 newbit h.sameSizeGrow cells true m) := by
+  induction cells with
+  | nil =>
+    intro x y h wx wy hx hy _
+    exact ⟨[], x, y, h, [], [], rfl, Same.refl h, rfl, by simp, by simpa using hx, by simpa using hy, by simp,
+      fun _ => rfl, by simp, by simp⟩
+  | cons c cs ih =>
+    intro x y h wx wy hx hy hsrc
+    have hsrc' : ∀ c' ∈ cs, isEmptyTop c'.top = false → c'.live = true ∧ o.unhashable c'.key = false :=
+      fun c' hc' => hsrc c' (by simp [hc'])
+    rw [evacCells]
+    cases hemp : isEmptyTop c.top with
+    | true =>
+      obtain ⟨marked, x', y', h', mx, my, hev, hs, hlen, hmk, dx, dy, hperm, hssg, hmx, hmy⟩ := ih x y h wx wy hx hy hsrc'
+      simp only [if_true, hev, bind, Except.bind, pure, Except.pure]
+      refine ⟨_, x', y', h', mx, my, rfl, hs, by simp [hlen], ?_, dx, dy, ?_, hssg,
+        fun m hm => (hmx m hm).cons, fun m hm => (hmy m hm).cons⟩
+      · intro m hm
+        rcases List.mem_cons.1 hm with rfl | hm
+        · simp [evacuatedEmpty]
+        · exact hmk m hm
+      · rw [chainAbs_cons_dead (dead_of_isEmpty hemp)]; exact hperm
+    | false =>
+      obtain ⟨hl, hu⟩ := hsrc c (by simp) hemp
+      have h5 := live_iff.1 hl
+      have hlt : ¬ c.top < minTopHash := by
+        rw [UInt8.lt_iff_toNat_lt]; simp [minTopHash]; omega
+      simp only [Bool.false_eq_true, if_false, hlt]
+      obtain ⟨useY, top, h1, hdec, hs1, htop5, hssgY, hrefl⟩ := evacDecide_spec (newbit := newbit) h hl hu
+      simp only [hdec, bind, Except.bind]
+      have mlive : ({ top := top, key := c.key, val := c.val } : Cell K V).live = true := live_iff.2 htop5
+      cases useY with
+      | true =>
+        simp only [if_true]
+        have hsf : h.sameSizeGrow = false := by
+          cases hq : h.sameSizeGrow with
+          | false => rfl
+          | true => exact absurd (hssgY hq) (by simp)
+        obtain ⟨dy1, hs2⟩ := put_spec (hy hsf) { top := top, key := c.key, val := c.val } h1
+        obtain ⟨marked, x', y', h', mx, my, hev, hs, hlen, hmk, dx, dy, hperm, hssg, hmx, hmy⟩ :=
+          ih x _ _ wx _ hx (fun _ => dy1) hsrc'
+        have hs12 := hs1.trans hs2
+        rw [hev]
+        refine ⟨_, x', y', h', mx, { top := top, key := c.key, val := c.val } :: my, rfl, hs12.trans hs,
+          by simp [hlen], ?_, dx, (fun e => by simpa using dy (by rw [(hs1.trans hs2).ssg]; exact e)), ?_, ?_, ?_, ?_⟩
+        · intro m hm
+          rcases List.mem_cons.1 hm with rfl | hm
+          · simp [evacuatedY]
+          · exact hmk m hm
+        · rw [chainAbs_cons_live hl, chainAbs_cons_live mlive]
+          exact List.perm_middle.trans ((List.perm_cons _).2 hperm)
+        · intro e
+          have := hssgY e
+          cases this
+        · intro m hm
+          have := (hmx m hm).cons (c := c)
+          rw [hs12.hash0, hs12.ssg] at this
+          exact this
+        · intro m hm
+          rcases List.mem_cons.1 hm with rfl | hm
+          · exact ⟨htop5, c, by simp, hl, rfl, rfl, fun hr => ⟨(hrefl hr).1, fun hf => ((hrefl hr).2 hf).symm⟩⟩
+          · have := (hmy m hm).cons (c := c)
+            rw [hs12.hash0, hs12.ssg] at this
+            exact this
+      | false =>
+        simp only [Bool.false_eq_true, if_false]
+        obtain ⟨dx1, hs2⟩ := put_spec hx { top := top, key := c.key, val := c.val } h1
+        obtain ⟨marked, x', y', h', mx, my, hev, hs, hlen, hmk, dx, dy, hperm, hssg, hmx, hmy⟩ :=
+          ih _ y _ _ wy dx1 (fun e => hy (by rw [← (hs1.trans hs2).ssg]; exact e)) hsrc'
+        have hs12 := hs1.trans hs2
+        rw [hev]
+        refine ⟨_, x', y', h', { top := top, key := c.key, val := c.val } :: mx, my, rfl, hs12.trans hs,
+          by simp [hlen], ?_, by simpa using dx, (fun e => dy (by rw [(hs1.trans hs2).ssg]; exact e)), ?_, ?_, ?_, ?_⟩
+        · intro m hm
+          rcases List.mem_cons.1 hm with rfl | hm
+          · simp [evacuatedX]
+          · exact hmk m hm
+        · rw [chainAbs_cons_live hl, chainAbs_cons_live mlive]
+          exact (List.perm_cons _).2 hperm
+        · intro e
+          apply hssg
+          rw [hs12.ssg]; exact e
+        · intro m hm
+          rcases List.mem_cons.1 hm with rfl | hm
+          · exact ⟨htop5, c, by simp, hl, rfl, rfl, fun hr => ⟨(hrefl hr).1, fun hf => ((hrefl hr).2 hf).symm⟩⟩
+          · have := (hmx m hm).cons (c := c)
+            rw [hs12.hash0, hs12.ssg] at this
+            exact this
+        · intro m hm
+          have := (hmy m hm).cons (c := c)
+          rw [hs12.hash0, hs12.ssg] at this
+          exact this
+
+theorem mod_two_mul_lt {a n : Nat} (h : a % (2 * n) < n) : a % (2 * n) = a % n := by
+  have := Nat.mod_mul_right_mod a n 2
+  rw [Nat.mul_comm] at this
+  rw [← this, Nat.mod_eq_of_lt h]
+
+theorem mod_two_mul_ge {a n : Nat} (hn : 0 < n) (h : a % (2 * n) ≥ n) : a % (2 * n) = a % n + n := by
+  have h1 := Nat.mod_mul_right_mod a n 2
+  rw [Nat.mul_comm] at h1
+  have h2 : a % (2 * n) < 2 * n := Nat.mod_lt _ (by omega)
+  have h3 : a % (2 * n) % n = a % (2 * n) - n := by
+    rw [Nat.mod_eq_sub_mod h, Nat.mod_eq_of_lt (by omega)]
+  omega
+
+omit [Inhabited K] [Inhabited V] in
+theorem chainAbs_replicate_dead (n : Nat) (f : Cell K V) (hf : f.live = false) : chainAbs (List.replicate n f) = [] :=
+  chainAbs_nil_of_dead (fun y hy => by rw [List.eq_of_mem_replicate hy]; exact hf)
+
+omit [Inhabited K] [Inhabited V] in
+theorem restOK_replicate_zero (n : Nat) (f : Cell K V) (hf : f.live = false) : RestOK (List.replicate n f) := by
+  induction n with
+  | zero => trivial
+  | succ n ih =>
+    rw [List.replicate_succ]
+    exact ⟨fun _ y hy => by rw [List.eq_of_mem_replicate hy]; exact hf, ih⟩
+
+theorem freshCell_dead : (freshCell K V).live = false := dead_of_emptyRest rfl
+
+/-- the chain an evacuation destination ends up with is a well-formed chain holding exactly the written cells -/
+theorem dst_chain_ok {d : Dst K V} {ws : List (Cell K V)} (hd : DstOK d ws) (hw : ∀ m ∈ ws, 5 ≤ m.top.toNat) :
+    chainAbs d.chain = chainAbs ws ∧ NoMarks d.chain ∧ RestOK d.chain ∧ d.chain ≠ [] ∧
+      (∀ m ∈ d.chain, m.live = true → m ∈ ws) := by
+  obtain ⟨hi, hlen, hch⟩ := hd
+  rw [hch]
+  refine ⟨by rw [chainAbs_append, chainAbs_replicate_dead _ _ freshCell_dead]; simp, ?_, ?_, ?_, ?_⟩
+  · intro m hm
+    rcases List.mem_append.1 hm with hm | hm
+    · right; exact hw m hm
+    · left; rw [List.eq_of_mem_replicate hm]; simp [freshCell, emptyRest]
+  · rw [RestOK_append_nonzero]
+    · exact restOK_replicate_zero _ _ freshCell_dead
+    · intro y hy e
+      have := hw y hy
+      rw [e] at this
+      simp [emptyRest] at this
+  · intro e
+    have := congrArg List.length e
+    simp only [List.length_append, List.length_replicate, List.length_nil] at this
+    omega
+  · intro m hm hl
+    rcases List.mem_append.1 hm with hm | hm
+    · exact hm
+    · rw [List.eq_of_mem_replicate hm, freshCell_dead] at hl; cases hl
+
+omit [Inhabited K] [Inhabited V] in
+/-- replacing a chain without filled cells adds the new chain's entries -/
+theorem perm_set_of_dead {a : Array (Chain K V)} {i : Nat} (hi : i < a.size) (c : Chain K V)
+    (hd : chainAbs a[i] = []) :
+    (chainAbs (cellsOf (a.setIfInBounds i c))).Perm (chainAbs c ++ chainAbs (cellsOf a)) := by
+  rw [cellsOf_set hi, cellsOf_split hi]
+  simp only [chainAbs_append, hd, List.append_nil]
+  exact (List.Perm.append_right _ List.perm_append_comm).trans (by simp)
+
+omit [Inhabited K] [Inhabited V] in
+/-- replacing a chain by one without filled cells removes its entries -/
+theorem perm_set_to_dead {a : Array (Chain K V)} {i : Nat} (hi : i < a.size) (c : Chain K V)
+    (hd : chainAbs c = []) :
+    (chainAbs (cellsOf a)).Perm (chainAbs a[i] ++ chainAbs (cellsOf (a.setIfInBounds i c))) := by
+  rw [cellsOf_set hi, cellsOf_split hi]
+  simp only [chainAbs_append, hd, List.append_nil]
+  exact (List.Perm.append_right _ List.perm_append_comm).trans (by simp)
+
+theorem freshBucket_abs : chainAbs (freshBucket K V) = [] :=
+  chainAbs_replicate_dead _ _ (dead_of_emptyRest rfl)
+
+omit [Inhabited K] [Inhabited V] in
+theorem evacuatedChain_of_marks {c : List (Cell K V)} (hne : c ≠ []) (hm : ∀ m ∈ c, 2 ≤ m.top.toNat ∧ m.top.toNat ≤ 4) :
+    evacuatedChain c = true := by
+  cases c with
+  | nil => exact absurd rfl hne
+  | cons x r =>
+    have := hm x (by simp)
+    simp only [evacuatedChain, emptyOne, minTopHash, Bool.and_eq_true, decide_eq_true_eq, UInt8.lt_iff_toNat_lt]
+    have h1 : (1 : UInt8).toNat = 1 := rfl
+    have h5 : (5 : UInt8).toNat = 5 := rfl
+    omega
+
+omit [Inhabited K] [Inhabited V] in
+theorem not_evacuated_of_noMarks {c : List (Cell K V)} (hn : NoMarks c) : evacuatedChain c = false := by
+  cases c with
+  | nil => rfl
+  | cons x r =>
+    have := hn x (by simp)
+    simp only [evacuatedChain, emptyOne, minTopHash]
+    have h1 : (1 : UInt8).toNat = 1 := rfl
+    have h5 : (5 : UInt8).toNat = 5 := rfl
+    cases hd : decide (x.top > 1) && decide (x.top < 5) with
+    | false => exact hd
+    | true =>
+      simp only [Bool.and_eq_true, decide_eq_true_eq, UInt8.lt_iff_toNat_lt, gt_iff_lt] at hd
+      omega
+
+
+omit [Inhabited K] [Inhabited V] in
+theorem getElem_of_getElem? {a : Array (Chain K V)} {i : Nat} {c : Chain K V} (h : a[i]? = some c) :
+    ∃ hi : i < a.size, a[i] = c := by
+  have hi : i < a.size := by
+    cases Nat.lt_or_ge i a.size with
+    | inl h' => exact h'
+    | inr h' => rw [Array.getElem?_eq_none h'] at h; cases h
+  rw [Array.getElem?_eq_getElem hi] at h
+  exact ⟨hi, Option.some.inj h⟩
+
+omit [Inhabited K] [Inhabited V] in
+theorem getD_of_getElem? {a : Array (Chain K V)} {i : Nat} {c : Chain K V} (h : a[i]? = some c) : a.getD i [] = c := by
+  rw [Array.getD_eq_getD_getElem?, h]; rfl
+
+/-- chain properties required by `WF.newOK` -/
+def NewChainOK (o : Ops K) (seed : UInt32) (n i : Nat) (c : Chain K V) : Prop :=
+  NoMarks c ∧ RestOK c ∧ Placed o seed n i c ∧ Hashable o c ∧ c ≠ []
+
+/-- chain properties required by `OldOK.chains` -/
+def OldChainOK (o : Ops K) (h : HMap K V) (j : Nat) (c : Chain K V) : Prop :=
+  (evacuatedChain c = true → ∀ x ∈ c, x.live = false) ∧
+  (evacuatedChain c = false →
+    NoMarks c ∧ RestOK c ∧ Placed o h.hash0 h.noldbuckets j c ∧ Hashable o c ∧ c ≠ [] ∧
+    h.buckets[j]? = some (freshBucket K V) ∧
+    (h.sameSizeGrow = false → h.buckets[j + h.noldbuckets]? = some (freshBucket K V)))
+
+theorem WF.newOK' {o : Ops K} {h : HMap K V} (hw : WF o h) {i : Nat} {c : Chain K V} (hc : h.buckets[i]? = some c) :
+    NewChainOK o h.hash0 (2 ^ h.B) i c := by
+  obtain ⟨hi, rfl⟩ := getElem_of_getElem? hc
+  exact hw.newOK i hi
+
+theorem OldOK.chains' {o : Ops K} {h : HMap K V} {oa : Array (Chain K V)} (hO : OldOK o h oa) {j : Nat} {c : Chain K V}
+    (hc : oa[j]? = some c) : OldChainOK o h j c := by
+  obtain ⟨hj, rfl⟩ := getElem_of_getElem? hc
+  exact hO.chains j hj
+
+theorem wf_intro {o : Ops K} {h : HMap K V} (hsize : h.buckets.size = 2 ^ h.B)
+    (hnew : ∀ i c, h.buckets[i]? = some c → NewChainOK o h.hash0 (2 ^ h.B) i c)
+    (hcount : h.count = (abs h).length) (hnd : NoDupKeys o.eq (abs h))
+    (hold : match h.old with
+      | none => h.sameSizeGrow = false
+      | some oa => OldOK o h oa) : WF o h :=
+  ⟨hsize, fun i hi => hnew i _ (Array.getElem?_eq_getElem hi), hcount, hnd, hold⟩
+
+theorem oldOK_intro {o : Ops K} {h : HMap K V} {oa : Array (Chain K V)} (hsize : oa.size = h.noldbuckets)
+    (hb : h.sameSizeGrow = false → 1 ≤ h.B) (hn : h.nevacuate < oa.size)
+    (hdone : ∀ j c, oa[j]? = some c → j < h.nevacuate → evacuatedChain c = true)
+    (hch : ∀ j c, oa[j]? = some c → OldChainOK o h j c) : OldOK o h oa :=
+  ⟨hsize, hb, hn, fun j hj hjn => hdone j _ (Array.getElem?_eq_getElem hj) hjn,
+   fun j hj => hch j _ (Array.getElem?_eq_getElem hj)⟩
+
+theorem OldOK.done' {o : Ops K} {h : HMap K V} {oa : Array (Chain K V)} (hO : OldOK o h oa) {j : Nat} {c : Chain K V}
+    (hc : oa[j]? = some c) (hjn : j < h.nevacuate) : evacuatedChain c = true := by
+  obtain ⟨hj, rfl⟩ := getElem_of_getElem? hc
+  exact hO.done j hj hjn
+
+
+omit [Inhabited K] [Inhabited V] in
+theorem noldbuckets_congr {h h' : HMap K V} (hB : h'.B = h.B) (hs : h'.sameSizeGrow = h.sameSizeGrow) :
+    h'.noldbuckets = h.noldbuckets := by
+  simp only [HMap.noldbuckets, hB, hs]
+
+/-- the table after the copy loop of `evacuate` for old bucket `j` -/
+def evacDone (h2 : HMap K V) (oa : Array (Chain K V)) (j newbit : Nat) (x y : Dst K V) (marked : List (Cell K V)) :
+    HMap K V :=
+  { h2 with
+    buckets := if !h2.sameSizeGrow then (h2.buckets.setIfInBounds j x.chain).setIfInBounds (j + newbit) y.chain
+               else h2.buckets.setIfInBounds j x.chain,
+    old := some (oa.setIfInBounds j marked) }
+
+theorem dstOK_fresh : DstOK ({ chain := freshBucket K V } : Dst K V) [] :=
+  ⟨by simp, by simp, by simp [freshBucket, bucketCnt, freshCell]⟩
+
+/-- the cells written to a destination form a chain that satisfies the invariant of the new table at index `t` -/
+theorem dest_chain_ok {o : Ops K} (ho : HashOK o) {h : HMap K V} {src : List (Cell K V)} {j t : Nat} {toY : Bool}
+    {d : Dst K V} {ws : List (Cell K V)} (hd : DstOK d ws)
+    (hsrcP : Placed o h.hash0 h.noldbuckets j src) (hsrcH : Hashable o src)
+    (hmv : ∀ m ∈ ws, MovedFrom o h.hash0 h.noldbuckets h.sameSizeGrow src toY m)
+    (hidx : ∀ a : Nat, a % h.noldbuckets = j →
+      (h.sameSizeGrow = false → decide (a % (2 * h.noldbuckets) ≥ h.noldbuckets) = toY) → a % 2 ^ h.B = t) :
+    NewChainOK o h.hash0 (2 ^ h.B) t d.chain ∧ chainAbs d.chain = chainAbs ws := by
+  obtain ⟨hA, hN, hR, hne, hmem⟩ := dst_chain_ok hd (fun m hm => (hmv m hm).1)
+  refine ⟨⟨hN, hR, ?_, ?_, hne⟩, hA⟩
+  · intro m hm hl hr
+    obtain ⟨_, c, hc, hcl, hk, _, hrf⟩ := hmv m (hmem m hm hl)
+    rw [hk] at hr ⊢
+    obtain ⟨e1, e2⟩ := hrf hr
+    obtain ⟨p1, p2⟩ := hsrcP c hc hcl hr
+    exact ⟨by rw [e1]; exact p1, hidx _ p2 e2⟩
+  · intro m hm hl
+    obtain ⟨_, c, hc, hcl, hk, _, _⟩ := hmv m (hmem m hm hl)
+    rw [hk]; exact hsrcH c hc hcl
+
+theorem evacuate_body {o : Ops K} (ho : HashOK o) {h : HMap K V} (hw : WF o h) {oa : Array (Chain K V)}
+    (hold : h.old = some oa) {j : Nat} (hj : j < oa.size) (hne : evacuatedChain oa[j] = false) :
+    ∃ marked x y h2,
+      evacCells o h.noldbuckets oa[j] { chain := h.buckets.getD j [] }
+        { chain := h.buckets.getD (j + h.noldbuckets) [] } h = .ok (marked, x, y, h2) ∧ Same h h2 ∧
+      WF o (evacDone h2 oa j h.noldbuckets x y marked) ∧
+      (abs (evacDone h2 oa j h.noldbuckets x y marked)).Perm (abs h) ∧ evacuatedChain marked = true ∧
+      marked.length = oa[j].length := by
+  have hO := hw.old
+  rw [hold] at hO
+  simp only at hO
+  obtain ⟨sN, sR, sP, sH, sne, fx, fy⟩ := (hO.chains j hj).2 hne
+  have hjn : j < h.noldbuckets := by rw [← hO.size]; exact hj
+  obtain ⟨q, hq, hpos⟩ := nold_dvd hw hold
+  have gx : h.buckets.getD j [] = freshBucket K V := getD_of_getElem? fx
+  obtain ⟨hjb, hbj⟩ := getElem_of_getElem? fx
+  have hsrc : ∀ c ∈ oa[j], isEmptyTop c.top = false → c.live = true ∧ o.unhashable c.key = false := by
+    intro c hc he
+    have hl : c.live = true := by
+      rcases sN c hc with h1 | h1
+      · exfalso
+        simp only [isEmptyTop, emptyOne, decide_eq_false_iff_not, UInt8.le_iff_toNat_le] at he
+        have : (1 : UInt8).toNat = 1 := rfl
+        omega
+      · exact live_iff.2 h1
+    exact ⟨hl, sH c hc hl⟩
+  have dyOK : h.sameSizeGrow = false → DstOK ({ chain := h.buckets.getD (j + h.noldbuckets) [] } : Dst K V) [] := by
+    intro e
+    rw [getD_of_getElem? (fy e)]
+    exact dstOK_fresh
+  rw [gx]
+  obtain ⟨marked, x, y, h2, mx, my, hev, hs, hlen, hmk, dx, dy, hperm, hssg, hmx, hmy⟩ :=
+    evacCells_spec (o := o) (newbit := h.noldbuckets) oa[j] { chain := freshBucket K V }
+      { chain := h.buckets.getD (j + h.noldbuckets) [] } h [] [] dstOK_fresh dyOK hsrc
+  simp only [List.nil_append] at dx dy
+  have hmkne : marked ≠ [] := by
+    intro e; rw [e] at hlen
+    exact sne (List.eq_nil_of_length_eq_zero hlen.symm)
+  have hmev : evacuatedChain marked = true := evacuatedChain_of_marks hmkne hmk
+  have hmdead : chainAbs marked = [] := chainAbs_nil_of_dead (fun m hm => by
+    have := hmk m hm
+    simp only [Cell.live, decide_eq_false_iff_not]; omega)
+  -- arithmetic of the two destination indices
+  have idxX : ∀ a : Nat, a % h.noldbuckets = j →
+      (h.sameSizeGrow = false → decide (a % (2 * h.noldbuckets) ≥ h.noldbuckets) = false) → a % 2 ^ h.B = j := by
+    intro a ha hdec
+    cases hssgc : h.sameSizeGrow with
+    | true =>
+      have : h.noldbuckets = 2 ^ h.B := by simp [HMap.noldbuckets, hssgc]
+      rw [← this]; exact ha
+    | false =>
+      have hB := hO.bpos hssgc
+      have h2n : 2 ^ h.B = 2 * h.noldbuckets := by
+        simp only [HMap.noldbuckets, hssgc]
+        have : h.B = (h.B - 1) + 1 := by omega
+        conv => lhs; rw [this, Nat.pow_succ]
+        simp; omega
+      have := hdec hssgc
+      simp only [decide_eq_false_iff_not, Nat.not_le] at this
+      rw [h2n, mod_two_mul_lt this]; exact ha
+  have idxY : h.sameSizeGrow = false → ∀ a : Nat, a % h.noldbuckets = j →
+      (h.sameSizeGrow = false → decide (a % (2 * h.noldbuckets) ≥ h.noldbuckets) = true) →
+      a % 2 ^ h.B = j + h.noldbuckets := by
+    intro hssgc a ha hdec
+    have hB := hO.bpos hssgc
+    have h2n : 2 ^ h.B = 2 * h.noldbuckets := by
+      simp only [HMap.noldbuckets, hssgc]
+      have : h.B = (h.B - 1) + 1 := by omega
+      conv => lhs; rw [this, Nat.pow_succ]
+      simp; omega
+    have := hdec hssgc
+    simp only [decide_eq_true_eq] at this
+    rw [h2n, mod_two_mul_ge hpos this, ha]
+  obtain ⟨xOK, xA⟩ := dest_chain_ok (t := j) ho dx sP sH hmx idxX
+  -- the entries: nothing is lost, nothing is duplicated
+  have hOldPerm : (chainAbs (cellsOf oa)).Perm (chainAbs oa[j] ++ chainAbs (cellsOf (oa.setIfInBounds j marked))) :=
+    perm_set_to_dead hj marked hmdead
+  have hfreshj : chainAbs h.buckets[j] = [] := by rw [hbj]; exact freshBucket_abs
+  have hperm' : (abs (evacDone h2 oa j h.noldbuckets x y marked)).Perm (abs h) := by
+    unfold abs allCells
+    simp only [evacDone, hold, Option.getD_some, chainAbs_append, hs.buckets, hs.ssg]
+    cases hssgc : h.sameSizeGrow with
+    | true =>
+      simp only [Bool.not_true, Bool.false_eq_true, if_false]
+      have hmy0 : my = [] := hssg hssgc
+      rw [hmy0] at hperm
+      simp only [chainAbs_nil, List.append_nil] at hperm
+      have p1 := perm_set_of_dead hjb x.chain hfreshj
+      rw [xA] at p1
+      -- (mx ++ N) ++ O'  ~  N ++ (c_j ++ O')
+      refine (List.Perm.append_right _ p1).trans ?_
+      refine List.Perm.trans ?_ (List.Perm.append_left _ hOldPerm.symm)
+      refine (List.Perm.append_right _ (List.perm_append_comm)).trans ?_
+      simp only [List.append_assoc]
+      exact List.Perm.append_left _ (List.Perm.append_right _ hperm)
+    | false =>
+      simp only [Bool.not_false, if_true]
+      obtain ⟨yOK, yA⟩ := dest_chain_ok (t := j + h.noldbuckets) ho (dy hssgc) sP sH hmy (idxY hssgc)
+      obtain ⟨hjb2, hbj2⟩ := getElem_of_getElem? (fy hssgc)
+      have hne2 : j ≠ j + h.noldbuckets := by omega
+      have hj2' : j + h.noldbuckets < (h.buckets.setIfInBounds j x.chain).size := by simpa using hjb2
+      have hfresh2 : chainAbs (h.buckets.setIfInBounds j x.chain)[j + h.noldbuckets] = [] := by
+        have e : (h.buckets.setIfInBounds j x.chain)[j + h.noldbuckets]? = some (freshBucket K V) := by
+          rw [Array.getElem?_setIfInBounds_ne hne2]; exact fy hssgc
+        obtain ⟨_, e'⟩ := getElem_of_getElem? e
+        rw [e']; exact freshBucket_abs
+      have p2 := perm_set_of_dead hj2' y.chain hfresh2
+      have p1 := perm_set_of_dead hjb x.chain hfreshj
+      rw [yA] at p2
+      rw [xA] at p1
+      -- (my ++ (mx ++ N)) ++ O' ~ N ++ (c_j ++ O')
+      refine (List.Perm.append_right _ (p2.trans (List.Perm.append_left _ p1))).trans ?_
+      refine List.Perm.trans ?_ (List.Perm.append_left _ hOldPerm.symm)
+      have : (chainAbs my ++ (chainAbs mx ++ chainAbs (cellsOf h.buckets))).Perm
+          (chainAbs (cellsOf h.buckets) ++ chainAbs oa[j]) := by
+        rw [← List.append_assoc]
+        refine List.perm_append_comm.trans (List.Perm.append_left _ ?_)
+        exact List.perm_append_comm.trans hperm
+      refine (List.Perm.append_right _ this).trans ?_
+      simp only [List.append_assoc]
+      exact List.Perm.refl _
+  refine ⟨marked, x, y, h2, hev, hs, ?_, hperm', hmev, hlen⟩
+  -- WF
+  have gB : (evacDone h2 oa j h.noldbuckets x y marked).B = h.B := hs.B
+  have g0 : (evacDone h2 oa j h.noldbuckets x y marked).hash0 = h.hash0 := hs.hash0
+  have gs : (evacDone h2 oa j h.noldbuckets x y marked).sameSizeGrow = h.sameSizeGrow := hs.ssg
+  have gn : (evacDone h2 oa j h.noldbuckets x y marked).nevacuate = h.nevacuate := hs.nev
+  have gc : (evacDone h2 oa j h.noldbuckets x y marked).count = h.count := hs.count
+  have gnold : (evacDone h2 oa j h.noldbuckets x y marked).noldbuckets = h.noldbuckets := by
+    exact noldbuckets_congr gB gs
+  have gold : (evacDone h2 oa j h.noldbuckets x y marked).old = some (oa.setIfInBounds j marked) := rfl
+  -- the chains of the new array
+  have gbk : ∀ i c, (evacDone h2 oa j h.noldbuckets x y marked).buckets[i]? = some c →
+      (i = j ∧ c = x.chain) ∨ (h.sameSizeGrow = false ∧ i = j + h.noldbuckets ∧ c = y.chain) ∨
+      (i ≠ j ∧ (h.sameSizeGrow = false → i ≠ j + h.noldbuckets) ∧ h.buckets[i]? = some c) := by
+    intro i c hc
+    simp only [evacDone, hs.buckets, hs.ssg] at hc
+    cases hssgc : h.sameSizeGrow with
+    | true =>
+      simp only [hssgc, Bool.not_true, Bool.false_eq_true, if_false] at hc
+      rw [Array.getElem?_setIfInBounds] at hc
+      split at hc
+      · rename_i e
+        left
+        simp only [hjb, if_true, Option.some.injEq] at hc
+        exact ⟨e.symm, hc.symm⟩
+      · rename_i e
+        right; right
+        exact ⟨fun e' => e e'.symm, (fun e' => by cases e'), hc⟩
+    | false =>
+      simp only [hssgc, Bool.not_false, if_true] at hc
+      rw [Array.getElem?_setIfInBounds] at hc
+      split at hc
+      · rename_i e
+        right; left
+        split at hc
+        · exact ⟨rfl, e.symm, (Option.some.inj hc).symm⟩
+        · cases hc
+      · rename_i e
+        rw [Array.getElem?_setIfInBounds] at hc
+        split at hc
+        · rename_i e2
+          left
+          simp only [hjb, if_true, Option.some.injEq] at hc
+          exact ⟨e2.symm, hc.symm⟩
+        · rename_i e2
+          right; right
+          exact ⟨fun e' => e2 e'.symm, fun _ e' => e e'.symm, hc⟩
+  have gbk_other : ∀ i, i ≠ j → (h.sameSizeGrow = false → i ≠ j + h.noldbuckets) →
+      (evacDone h2 oa j h.noldbuckets x y marked).buckets[i]? = h.buckets[i]? := by
+    intro i h1 h2'
+    simp only [evacDone, hs.buckets, hs.ssg]
+    cases hssgc : h.sameSizeGrow with
+    | true =>
+      simp only [Bool.not_true, Bool.false_eq_true, if_false]
+      exact Array.getElem?_setIfInBounds_ne (Ne.symm h1)
+    | false =>
+      simp only [Bool.not_false, if_true]
+      rw [Array.getElem?_setIfInBounds_ne (Ne.symm (h2' hssgc)), Array.getElem?_setIfInBounds_ne (Ne.symm h1)]
+  apply wf_intro
+  · rw [gB]
+    simp only [evacDone, hs.buckets]
+    split <;> simp [hw.size]
+  · intro i c hc
+    rw [g0, gB]
+    rcases gbk i c hc with ⟨rfl, rfl⟩ | ⟨hssgc, rfl, rfl⟩ | ⟨_, _, hc'⟩
+    · exact xOK
+    · exact (dest_chain_ok (t := j + h.noldbuckets) ho (dy hssgc) sP sH hmy (idxY hssgc)).1
+    · exact hw.newOK' hc'
+  · rw [gc, hw.count]; exact hperm'.length_eq.symm
+  · exact nodup_perm ho.eqok hperm'.symm hw.nodup
+  · rw [gold]
+    simp only
+    apply oldOK_intro
+    · rw [gnold]; simpa using hO.size
+    · rw [gs, gB]; exact hO.bpos
+    · rw [gn]; simpa using hO.nevac
+    · intro j' c hc hjn
+      rw [gn] at hjn
+      rw [Array.getElem?_setIfInBounds] at hc
+      split at hc
+      · simp only [hj, if_true, Option.some.injEq] at hc
+        rw [← hc]; exact hmev
+      · exact hO.done' hc hjn
+    · intro j' c hc
+      rw [Array.getElem?_setIfInBounds] at hc
+      split at hc
+      · simp only [hj, if_true, Option.some.injEq] at hc
+        rw [← hc]
+        refine ⟨fun _ m hm => ?_, fun e => by rw [hmev] at e; cases e⟩
+        have := hmk m hm
+        simp only [Cell.live, decide_eq_false_iff_not]; omega
+      · rename_i hjj
+        obtain ⟨hj', _⟩ := getElem_of_getElem? hc
+        have hj'n : j' < h.noldbuckets := by rw [← hO.size]; exact hj'
+        obtain ⟨c1, c2⟩ := hO.chains' hc
+        refine ⟨c1, fun e => ?_⟩
+        obtain ⟨a1, a2, a3, a4, a5, a6, a7⟩ := c2 e
+        refine ⟨a1, a2, by rw [g0, gnold]; exact a3, a4, a5, ?_, ?_⟩
+        · rw [gbk_other j' (fun e' => hjj e'.symm) (fun _ => by omega)]; exact a6
+        · intro hsf
+          rw [gs] at hsf
+          rw [gnold, gbk_other (j' + h.noldbuckets) (by omega) (fun _ => by omega)]
+          exact a7 hsf
 
 end LlgoVerif.HMap
